@@ -142,11 +142,17 @@ func (c *Channel) registerSubChannelFunding(id channel.ID, bals channel.Balances
 
 func (c *Channel) registerSubChannelSettlement(id channel.ID, bals [][]channel.Bal) {
 	filter := func(cu ChannelUpdate) bool {
-		_, containedBefore := c.machine.State().SubAlloc(id)
+		cur := c.machine.State().Clone()
+		subAlloc, containedBefore := cur.SubAlloc(id)
 		_, containedAfter := cu.State.SubAlloc(id)
-		equalBalances := c.machine.State().Balances.Add(bals).Equal(cu.State.Balances)
-
-		return containedBefore && !containedAfter && equalBalances
+		if !containedBefore || containedAfter || !cur.Balances.Add(bals).Equal(cu.State.Balances) {
+			return false
+		}
+		// All other sub-allocations must stay as they are.
+		if err := cur.RemoveSubAlloc(subAlloc); err != nil {
+			return false
+		}
+		return channel.SubAllocsEqual(cur.Locked, cu.State.Locked)
 	}
 	ui := newUpdateInterceptor(filter)
 	c.subChannelWithdrawals.Register(id, ui)
